@@ -487,7 +487,7 @@ void UtilContext::write8(const char *token)
 
   token = get_address(token, &address);
 
-  if (token == nullptr) { printf("Syntax error: bad address\n"); }
+  if (token == nullptr) { printf("Syntax error: bad address\n"); return; }
 
   int n = address;
 
@@ -514,7 +514,7 @@ void UtilContext::write16(const char *token)
 
   token = get_address(token, &address);
 
-  if (token == nullptr) { printf("Syntax error: bad address\n"); }
+  if (token == nullptr) { printf("Syntax error: bad address\n"); return; }
 
   int mask = (alignment - 1) & 0x1;
 
@@ -550,7 +550,7 @@ void UtilContext::write32(const char *token)
 
   token = get_address(token, &address);
 
-  if (token == nullptr) { printf("Syntax error: bad address\n"); }
+  if (token == nullptr) { printf("Syntax error: bad address\n"); return; }
 
   if ((address & (alignment - 1)) != 0)
   {
